@@ -1100,7 +1100,7 @@ func (c *Client) findNewPrimary(ctx context.Context, height int64, remove bool) 
 
 			// promote respondent as the new primary
 			c.logger.Debug("found new primary", "primary", c.witnesses[response.witnessIndex])
-			c.primary = c.witnesses[response.witnessIndex]
+			newPrimary := c.witnesses[response.witnessIndex]
 
 			// add promoted witness to the list of witnesses to be removed
 			witnessesToRemove = append(witnessesToRemove, response.witnessIndex)
@@ -1110,6 +1110,9 @@ func (c *Client) findNewPrimary(ctx context.Context, height int64, remove bool) 
 			if err := c.removeWitnesses(witnessesToRemove); err != nil {
 				return nil, err
 			}
+			// only now: if the removal fails (no witness would be left) the respondent must not
+			// become primary while it still is a witness, or it would confirm its own headers
+			c.primary = newPrimary
 
 			// return the light block that new primary responded with
 			return response.lb, nil
